@@ -30,7 +30,10 @@ ASSUMPTIONS = ["critical pairs / grid values are finite floats (no NaN/inf insid
                "segments add the first-order rounding bound of the code's slope*x+b recomputation (8 eps (|slope x|+|y|) "
                "on each end value); cases where that bound exceeds 1e-9 relative are counted as ill_conditioned",
                "real p: np.float64 ** float is C pow, as Float.pow in the model",
-               "stability stream: diagrams on which the C03 repeated-bar shortcut fires (known finding) are skipped and counted"]
+               "stability stream: evaluated on every case; a failure on diagrams on which the C03 repeated-bar shortcut fired is "
+               "attributed to the known finding (counted, KNOWN-FINDING line), any other failure is a violation",
+               "large exponents: p_norm is tested for integer and real p up to 100 at scales 2^-21..2^21; failures where "
+               "|p*log2(max|value|) + log2(width)| > 900 (M**p leaves the double range) are the known over/underflow finding"]
 TOL = 1e-9
 EPS = 2.220446049250313e-16
 
@@ -308,6 +311,8 @@ def oracle_pow(p, cps):
     """sum over depths of the integral of |f|^p by adaptive quadrature on each segment (split at the root);
     independent of the code's closed form and of the model"""
     from scipy.integrate import quad
+    import warnings
+    warnings.filterwarnings("ignore", message=".*bad integrand behavior.*")
     tot = 0.0
     for l in cps:
         for (x0, y0), (x1, y1) in zip(l, l[1:]):
@@ -329,14 +334,15 @@ def oracle_pow(p, cps):
 
 def oracle_sup(cps):
     """largest absolute value of the interpolated functions, evaluated on breakpoints and 7 interior points per segment"""
-    best = 0.0
+    best = Fraction(0)
     for l in cps:
         for (x0, y0), (x1, y1) in zip(l, l[1:]):
-            for j in range(9):
-                best = max(best, abs(y0 + (y1 - y0) * j / 8.0))
+            f0, f1 = Fraction(y0), Fraction(y1)
+            for j in range(9):          # exact rationals: the end values are y0 and y1 themselves, no rounding
+                best = max(best, abs(f0 + (f1 - f0) * j / 8))
         if len(l) == 1:
-            best = max(best, abs(l[0][1]))
-    return best
+            best = max(best, abs(Fraction(l[0][1])))
+    return float(best)
 
 
 def oracle_disagrees(v, p, cps):
@@ -498,8 +504,8 @@ def run(ctx):
     for i in range(ctx.n(200, 3000)):
         cps = gen_synthetic(ctx)
         p = r.choice([-2.0, -1.5, -1.0000001, -0.5, -1e-9, 0.0, 0.5, 0.999, -3.0, 0.25])
-        if r.random() < 0.25:                      # a vertical segment (Python floats: ZeroDivisionError)
-            l = cps[0]
+        if r.random() < 0.25 and any(len(l) >= 2 for l in cps):   # a vertical segment (Python floats: ZeroDivisionError)
+            l = [l for l in cps if len(l) >= 2][0]
             j = r.randrange(len(l) - 1)
             l[j + 1][0] = l[j][0]
             l[j + 1][1] = l[j][1] + 1.0
@@ -642,17 +648,18 @@ def eval_laws(case, ctx=None):
     res["triangle"] = nAB <= (nA + nB) * (1 + TOL) + eAB + eA + eB and sAB <= (sA + sB) * (1 + TOL) and \
         nG <= (1.5 * nP[0] + 2.0 * nP[1] + 0.5 * nP[2]) * (1 + TOL) + eG + 1.5 * eP[0] + 2.0 * eP[1] + 0.5 * eP[2]
     res["difference_symmetric"] = rel_close(nBA, nA, extra=eA + eBA)
-    if fired:
-        res["stability"] = None            # C03 known finding: the landscape itself is not the k-th largest tent
-    else:
-        import warnings
-        with warnings.catch_warnings():
-            warnings.simplefilter("ignore")
-            d12 = float(bn(np.array(dg[0], dtype=float), np.array(dg[1], dtype=float)))
-        scale = max(abs(x) for d in dg for b in d for x in b) or 1.0
-        res["stability"] = sA <= d12 + step * (1 + 1e-9) + 1e-9 * scale
-        res["_bn"] = d12
-        res["_sup"] = sA
+    # the stability clause is evaluated on every case; where it fails AND the C03 repeated-bar shortcut fired while the
+    # landscapes were built, the caller attributes the failure to the known finding (the landscape itself is then not
+    # the k-th largest tent) instead of reporting it
+    import warnings
+    with warnings.catch_warnings():
+        warnings.simplefilter("ignore")
+        d12 = float(bn(np.array(dg[0], dtype=float), np.array(dg[1], dtype=float)))
+    scale = max(abs(x) for d in dg for b in d for x in b) or 1.0
+    res["stability"] = sA <= d12 + step * (1 + 1e-9) + 1e-9 * scale
+    res["_bn"] = d12
+    res["_sup"] = sA
+    res["_fired"] = bool(fired)
     return res
 
 
@@ -668,8 +675,132 @@ def perturb_dgm(r, d, scale, delta):
     return out or [[0.0, delta * scale + 1e-6 * scale]]
 
 
+# ----------------------------------------------------------------------------- known findings
+KNOWN_STAB_KEY = "repeated-bar-shortcut"
+KNOWN_STAB_SITE = "site=persim/landscapes/exact.py:repeated-bar-shortcut"
+KNOWN_STAB_CASE = {"kind": "law", "dgms": [[[1.0, 5.0], [1.0, 5.0], [3.0, 6.0]], [[1.0, 5.0], [1.0, 5.0001], [3.0, 6.0]],
+                                           [[1.0, 5.0], [3.0, 6.0]]], "p": 2, "c": 2.0, "grid": False, "steps": 9, "perturb": True}
+KNOWN_OVF_KEY = "_p_norm-overflow-large-p"
+KNOWN_OVF_SITE = "site=persim/landscapes/auxiliary.py:_p_norm-overflow-large-p"
+KNOWN_OVF_CASES = [{"kind": "bigp", "dgm": [[0.0, 2.0 ** 21]], "p": 60}, {"kind": "bigp", "dgm": [[0.0, 2.0 ** -19]], "p": 60}]
+BIGP_EXP = 900.0     # |p*log2(max|value|) + log2(width)| beyond which M**p leaves the double range ("about 1000")
+
+
+def listed(site):
+    return [t for k, t in common.known_findings("C10") if k == "known" and site in t]
+
+
+def known_stab_text(kf):
+    return (KNOWN_STAB_SITE + " still fails (stability clause): D=[(1,5),(1,5),(3,6)], D'=[(1,5),(1,5.0001),(3,6)] gives "
+            "sup|L(D)-L(D')| = 0.9999 against bottleneck 1e-4 (the C03 repeated-bar shortcut, seen through C10); listed in "
+            "known_findings.txt" + ("" if kf else " [NOT LISTED]"))
+
+
+def known_ovf_text(kf):
+    return (KNOWN_OVF_SITE + " still fails: PersLandscapeExact([[0,2**21]]).p_norm(60) = inf and PersLandscapeExact([[0,2**-19]])"
+            ".p_norm(60) = 0.0 although the norm is a finite positive number (M**p is formed in double precision before the "
+            "root); listed in known_findings.txt" + ("" if kf else " [NOT LISTED]"))
+
+
+def bigp_eval(case):
+    """p_norm of the exact landscape of one diagram for a large exponent, against the same norm computed on the landscape
+    rescaled to unit height and unit width (homogeneity: ||f|| = M * X**(1/p) * ||f(X .)/M||, the rescaled call is far from
+    over/underflow).  -> dict(ok, value, expected, exponent)"""
+    ex, ap, aux = _mods()
+    L = mk_exact(case["dgm"]) if "dgm" in case else None
+    if "other" in case:
+        L = L - mk_exact(case["other"])
+    cps = cps_of(L)
+    p = case["p"]
+    M = max([abs(q[1]) for l in cps for q in l] + [0.0])
+    xs = [q[0] for l in cps for q in l]
+    X = (max(xs) - min(xs)) if xs else 0.0
+    v = fl(quiet(L.p_norm, p))
+    if M == 0.0 or X == 0.0:
+        return {"ok": v == 0.0, "value": v, "expected": 0.0, "exponent": 0.0}
+    # rescale by powers of two (exact: no abscissae or ordinates are merged or rounded)
+    M2, X2 = 2.0 ** round(math.log2(M)), 2.0 ** round(math.log2(X))
+    unit = [[[q[0] / X2, q[1] / M2] for q in l] for l in cps]
+    u = fl(quiet(aux._p_norm, p, unit))
+    want = M2 * X2 ** (1.0 / p) * u
+    expo = p * math.log2(M) + math.log2(X)
+    ok = math.isfinite(v) and v > 0.0 and math.isfinite(want) and abs(v - want) <= 1e-6 * want
+    return {"ok": ok, "value": v, "expected": want, "exponent": expo}
+
+
+def known_replays(ctx):
+    """replay the listed inputs of both known findings; print one KNOWN-FINDING line per entry while it still fails"""
+    kf_ovf, kf_stab = listed(KNOWN_OVF_SITE), listed(KNOWN_STAB_SITE)
+    still = []
+    for c in KNOWN_OVF_CASES:
+        res = bigp_eval(c)
+        still.append(not res["ok"])
+        if not res["ok"] and abs(res["exponent"]) <= BIGP_EXP:
+            ctx.violation("p_norm(%r) of %r = %r (expected %r) fails far from the double range" % (c["p"], c["dgm"], res["value"], res["expected"]),
+                          c, found_input=True)
+    ctx.extra["known_finding_overflow_still_fails"] = still
+    if any(still):
+        if kf_ovf:
+            ctx.known(KNOWN_OVF_KEY, known_ovf_text(True))
+        else:
+            ctx.violation("p_norm over/underflows for large p and this is not listed in known_findings.txt", KNOWN_OVF_CASES[0], found_input=True)
+    else:
+        print("note: the listed known finding of C10 (_p_norm overflow for large p) no longer reproduces on this tree", flush=True)
+    res = eval_laws(KNOWN_STAB_CASE)
+    fails = res.get("stability") is False
+    ctx.extra["known_finding_stability_still_fails"] = fails
+    ctx.extra["known_finding_stability_shortcut_fired"] = bool(res.get("_fired"))
+    if fails and res.get("_fired"):
+        if kf_stab:
+            ctx.known(KNOWN_STAB_KEY, known_stab_text(True))
+        else:
+            ctx.violation("the stability clause fails where the repeated-bar shortcut fires and this is not listed in known_findings.txt",
+                          KNOWN_STAB_CASE, law=True, failed=["stability"])
+    elif fails:
+        ctx.violation("the listed stability pair fails and the shortcut trace did not fire: sup %r > bottleneck %r"
+                      % (res.get("_sup"), res.get("_bn")), KNOWN_STAB_CASE, law=True, failed=["stability"])
+    else:
+        print("note: the listed known finding of C10 (stability where the C03 shortcut fires) no longer reproduces on this tree", flush=True)
+    return kf_ovf, kf_stab
+
+
+def stream_bigp(ctx, kf_ovf):
+    """[T] large exponents (integer and real p up to 100) on landscapes at scales 2^-21 .. 2^21: the norm must be finite,
+    non-zero and equal to the rescaled computation.  Failures with |p*log2(max|value|) + log2(width)| > BIGP_EXP are the known
+    over/underflow finding (counted); failures nearer to 1 are violations."""
+    r = ctx.rng
+    attributed = 0
+    for i in range(ctx.n(500, 6000)):
+        mode = r.choice(["lattice", "half", "eighth", "dec", "unif"])
+        k = r.choice([-21, -20, -12, -8, -3, 0, 0, 0, 3, 8, 12, 20, 21])
+        scale = 2.0 ** k
+        p = r.choice([r.randint(21, 100), r.randint(1, 100), round(r.uniform(20, 100), 2), float(r.choice([30, 60, 100]))])
+        c = {"kind": "bigp", "dgm": gen_dgm(ctx, mode, scale), "p": p}
+        if r.random() < 0.4:
+            c["other"] = gen_dgm(ctx, mode, scale)
+        res = bigp_eval(c)
+        far = abs(res["exponent"]) > BIGP_EXP
+        ctx.case(c, True, sample_every=97)
+        ctx.count("bigp:scale:2^%d" % k)
+        ctx.count("bigp:%s" % ("beyond_double_range" if far else "within_double_range"))
+        if not res["ok"] and far and kf_ovf:
+            attributed += 1
+            ctx.known(KNOWN_OVF_KEY, known_ovf_text(True))
+            continue
+        ctx.test("large_p_finite_nonzero_accurate", res["ok"])
+        if not res["ok"]:
+            ctx.violation("p_norm(p=%r) = %r but the norm is %r (rescaled computation; p*log2(max|value|)+log2(width) = %.0f)"
+                          % (p, res["value"], res["expected"], res["exponent"]), c, found_input=True)
+            if len(ctx.violations) > 5:
+                break
+    ctx.extra["bigp_failures_attributed_to_known_overflow"] = attributed
+
+
 def laws(ctx):
     r = ctx.rng
+    kf_ovf, kf_stab = known_replays(ctx)
+    if len(ctx.violations) <= 5:
+        stream_bigp(ctx, kf_ovf)
     for i in range(ctx.n(800, 18000)):
         mode, scale, dgms = gen_family(ctx, 3)
         perturb = r.random() < 0.6
@@ -694,11 +825,15 @@ def laws(ctx):
         if res.get("_ill"):
             ctx.count("laws:ill_conditioned")
         failed = []
+        if res.get("_fired"):
+            ctx.count("laws:stability_cases_with_c03_shortcut_fired")
         for k, ok in res.items():
             if k.startswith("_"):
                 continue
-            if ok is None:
-                ctx.count("laws:stability_skipped_c03_shortcut")
+            if k == "stability" and not ok and res.get("_fired") and kf_stab:
+                # the known finding seen through C10: counted, not reported
+                ctx.count("laws:stability_failures_attributed_to_c03_shortcut")
+                ctx.known(KNOWN_STAB_KEY, known_stab_text(True))
                 continue
             ctx.test(k, ok)
             if not ok:
@@ -758,6 +893,10 @@ def replay(ctx, rep):
         z = zero_function_check(A)
         print("values:", np.asarray(A.values).tolist()[:2], "->", z or "behaves as the zero function")
         return z is None
+    if kind == "bigp":
+        res = bigp_eval(c)
+        print("p_norm(%r) = %r, rescaled computation %r, p*log2(max|value|)+log2(width) = %.0f" % (c["p"], res["value"], res["expected"], res["exponent"]))
+        return res["ok"]
     if kind == "law":
         res = eval_laws(c)
         print("laws:", res)
